@@ -57,8 +57,16 @@ def fn_doc(rng):
                     lines.append("")
                     lines.append(pre + "   second paragraph " + ref())
             lines.append("")
-        elif r < 0.85:
+        elif r < 0.80:
             lines.append("> [^%s]: quoted definition" % rng.choice(keys)); lines.append("")
+        elif r < 0.86:
+            # references inside emphasis together with a link whose own text holds a reference (the emphasis handler looks ahead)
+            a, b = ref(), ref()
+            lines.append(rng.choice(["*see %s and [link %s](/u)*", "**x %s [t %s](/u 't') y**", "_%s `c` [%s](/u)_", "*%s <b> [a %s](/u)*"]) % (a, b)); lines.append("")
+        elif r < 0.90:
+            # a definition without text (the note exists and is empty)
+            k = rng.choice(keys); defined.append(k)
+            lines.append("[^%s]:%s" % (k, rng.choice([" ", "\t", "  "]))); lines.append("")
         else:
             lines.append("| a | b |\n|---|---|\n| %s | x |" % ref()); lines.append("")
     return "\n".join(lines) + "\n"
